@@ -143,7 +143,7 @@ func (x *c15) fund(m *mcontract, deps []proto4.AccountDeposit) error {
 	r := x.R.Fund(m.view(), deps, rhpx.Script{}, nil)
 	if r.Infra != nil {
 		x.cs.Inconclusive("watchdog")
-		return errInfra
+		return errInconclusive
 	}
 	valid := len(deps) > 0 && !r.Unpayable
 	for _, d := range deps {
@@ -220,7 +220,7 @@ func (x *c15) replenish(m *mcontract, pools bool, kidx []int, target types.Curre
 	r := x.R.Replenish(m.view(), pools, keys, target, rhpx.Script{}, nil)
 	if r.Infra != nil {
 		x.cs.Inconclusive("watchdog")
-		return errInfra
+		return errInconclusive
 	}
 	_, _, rerr := proto4.ReviseForReplenish(m.Rev, sum)
 	valid := len(keys) > 0 && !target.IsZero() && rerr == nil
@@ -523,7 +523,7 @@ func (x *c15) service(op C15Op) error {
 	}
 	if res.Infra != nil {
 		x.cs.Inconclusive("watchdog")
-		return errInfra
+		return errInconclusive
 	}
 	x.services++
 	x.cs.Class("service:" + op.Op)
@@ -686,7 +686,7 @@ func (x *c15) attach(op C15Op) error {
 	}
 	if res.Infra != nil {
 		x.cs.Inconclusive("watchdog")
-		return errInfra
+		return errInconclusive
 	}
 	x.cs.Class("rpc:" + op.Op)
 	calls := x.H.Log.Since(logFrom)
